@@ -55,7 +55,7 @@ def parseNode : Nat → Json → Option Node
         let b ← match bind with
           | .null => pure none
           | _ => match ← asArr? bind with
-            | [e, .str k] => pure (some (← parseExpr e, k))
+            | [e, .str k, _] => pure (some (← parseExpr e, k))
             | _ => none
         pure (.include n b (← parseArgs a))
     | [.str "render", .str n, bind, a] =>
